@@ -379,13 +379,13 @@ def work(spec, rec):
         h = spec["history"]
         apply_history(h)
         from symplyphysics.core.symbols import id_generator
-        start_ids = dict(id_generator._ids)
+        start_ids = dict(getattr(id_generator, "_ids", {}) or {})
         for i, name in enumerate(ordered(names, h["order"])):
             rec.checkpoint(30)
             digest = int(hashlib.sha1(name.encode()).hexdigest(), 16)
             observe_module(name, rec, probe=(digest % spec["probe_every"] == 0), out=out)
         rec.extra["observations"] = {h["name"]: out}
-        rec.extra["ids"] = {h["name"]: {"start": start_ids, "end": dict(id_generator._ids)}}
+        rec.extra["ids"] = {h["name"]: {"start": start_ids, "end": dict(getattr(id_generator, "_ids", {}) or {})}}
     elif spec["kind"] == "boundary":
         boundary_sweep(spec, rec)
     else:
@@ -414,6 +414,27 @@ def work(spec, rec):
         rec.extra["isolated"] = res
 
 
+def advance_counters(id_generator, target):
+    """move the SYM/FUN/QTY counters forward to `target` (never backwards). The counters are the documented state of the
+    generator (`_ids`); if a refactoring hides it, they are advanced through next_id itself where that is affordable."""
+    ids = getattr(id_generator, "_ids", None)
+    if isinstance(ids, dict):
+        if not all(ids.get(p, 0) < target for p in ("SYM", "FUN", "QTY")):
+            return False
+        for p in ("SYM", "FUN", "QTY"):
+            ids[p] = target
+        return True
+    if target > 3 * 10**6:
+        return False
+    for p in ("SYM", "FUN", "QTY"):
+        v = id_generator.next_id(p)
+        if v > target:
+            return False
+        while v < target:
+            v = id_generator.next_id(p)
+    return True
+
+
 def boundary_chunk(modules, j):
     """one fresh process: the i-th module body is re-executed with SYM/FUN/QTY counters placed so that its (j+1)-th own
     symbol is the last one with i+3 digits (counters only ever move forward, so every name stays unique)"""
@@ -429,9 +450,7 @@ def boundary_chunk(modules, j):
         entry = {"first": base, "re": []}
         if base.get("import") == "ok":
             target = 10 ** (i + 3) - 2 - j
-            if all(id_generator._ids.get(p, 0) < target for p in ("SYM", "FUN", "QTY")):
-                for p in ("SYM", "FUN", "QTY"):
-                    id_generator._ids[p] = target
+            if advance_counters(id_generator, target):
                 mod = sys.modules.pop(name, None)
                 out = {}
                 observe_module(name, H.Rec(), True, out)
